@@ -429,13 +429,6 @@ pub proof fn lemma_seg_cmp_shift(a: Segment, b: Segment, a2: Segment, b2: Segmen
 }
 
 impl Outgoing {
-//@ item sim/elvis-core/src/protocols/tcp/tcb/outgoing.rs :: impl Outgoing / fn queued_bytes id=Outgoing.queued_bytes mode=sig
-//@ contract
-    // ASSUMED (body not verified: iter().map(closure).sum()): the sum of the text lengths on the retransmission queue
-    ensures r == q_bytes(self.retransmit@),
-//@ end
-}
-impl Outgoing {
 //@ item sim/elvis-core/src/protocols/tcp/tcb/outgoing.rs :: impl Outgoing / fn reset id=Outgoing.reset
 //@ rewrite `self\.text = Default::default\(\);` => `self.text = Message::default();` ## inferred type of Default::default()
 //@ rewrite `self\.retransmit = Default::default\(\);` => `self.retransmit = VecDeque::new();` ## VecDeque::default() is VecDeque::new() (std)
@@ -861,8 +854,9 @@ impl Tcb {
             && final(self).timeouts.time_wait == old(self).timeouts.time_wait,   //# frame [C17,C03]
         old(self).outgoing.text@.len() >= final(self).outgoing.text@.len(),
         // (C17) new data is emitted only as far as the window the peer last advertised has room for it
+        //       (the right edge is SND.UNA + SND.WND: everything in flight counts, the sequence number of a SYN / FIN included)
         (old(self).outgoing.text@.len() - final(self).outgoing.text@.len()) > 0 ==>
-            q_bytes(old(self).outgoing.retransmit@) + (old(self).outgoing.text@.len() - final(self).outgoing.text@.len()) <= old(self).snd.wnd,   //# new_data_stays_inside_send_window [C17]
+            cdist(old(self).snd.una, old(self).snd.nxt) + (old(self).outgoing.text@.len() - final(self).outgoing.text@.len()) <= old(self).snd.wnd,   //# new_data_stays_inside_send_window [C17,C12]
         // (C01) new data segments carry the submitted stream in order, numbered consecutively from SND.NXT
         final(self).outgoing.text@ == old(self).outgoing.text@.subrange(old(self).outgoing.text@.len() - final(self).outgoing.text@.len(), old(self).outgoing.text@.len() as int),   //# unsent_text_is_the_remaining_suffix [C01,C02]
         final(self).snd.nxt == add32(old(self).snd.nxt, (old(self).outgoing.text@.len() - final(self).outgoing.text@.len()) as u32),   //# snd_nxt_advances_by_the_new_data [C01,C12]
@@ -886,14 +880,14 @@ impl Tcb {
                             && self.incoming == old(self).incoming && self.snd.una == old(self).snd.una && self.snd.wnd == old(self).snd.wnd
                             && self.snd.iss == old(self).snd.iss && self.timeouts == old(self).timeouts,
                         self.outgoing.oneshot@.len() == 0,
-                        queued_bytes == q_bytes(self.outgoing.retransmit@),
+                        queued_bytes == cdist(self.snd.una, nxt0) + (text0.len() - self.outgoing.text@.len()),
                         text0.len() >= self.outgoing.text@.len(),
                         self.outgoing.text@ == text0.subrange(text0.len() - self.outgoing.text@.len(), text0.len() as int),
                         self.snd.nxt == add32(nxt0, (text0.len() - self.outgoing.text@.len()) as u32),
                         self.outgoing.retransmit@.len() >= rtx0.len(),
                         self.outgoing.retransmit@.subrange(0, rtx0.len() as int) == rtx0,
                         rtx_tiles(self.outgoing.retransmit@, rtx0.len() as int, nxt0, text0.subrange(0, text0.len() - self.outgoing.text@.len())),
-                        (text0.len() - self.outgoing.text@.len()) > 0 ==> q_bytes(rtx0) + (text0.len() - self.outgoing.text@.len()) <= self.snd.wnd,
+                        (text0.len() - self.outgoing.text@.len()) > 0 ==> cdist(self.snd.una, nxt0) + (text0.len() - self.outgoing.text@.len()) <= self.snd.wnd,
                         q_bytes(self.outgoing.retransmit@) == q_bytes(rtx0) + (text0.len() - self.outgoing.text@.len()),
                         text0.len() - self.outgoing.text@.len() <= 65535,
                         q_bytes(rtx0) >= 0, rtx_wf(rtx0),
